@@ -19,8 +19,8 @@ RULE = ("a case is (container type with a delimited structure D nested as field 
         "containers are equal, everything outside D decodes as with the writer's revision, common leading fields of D keep their values, "
         "fields unknown to the writer are zero/empty/first variant; non-trivial = D' appends at least one field and the container has "
         "something after the hole or more than one hole instance; distinct = by hash of the canonical case")
-THEOREMS_NOTE = ("C14_layout (container layout does not depend on the fields of a nested delimited type), C14_zero_decode, "
-                 "C14_old_to_new / C14_new_to_old fix the decoded value")
+THEOREMS_NOTE = ("C14_layout* (bit length set, alignment, extent, per-field layout inputs equal for both revisions), C14_cross_version(_nested) with "
+                 "C14_old_to_new / C14_new_to_old / C14_conv_same fix the decoded value, C14_zero_decode / C14_zero_bytes")
 TRUSTED = S.TRUSTED
 ASSUMPTIONS = ["array capacities of random cases are <= 8"]
 EXPLANATION = ("theorems quantify over all containers, all prefix/extension pairs and all values; the correspondence compares the "
@@ -109,22 +109,10 @@ def gen_container(ctx, depth, place_hole):
     return t
 
 
-def hole_value(rng, fields, v_full):
-    return v_full
-
-
-def gen_value_with_hole(rng, t, dfields, p_omit):
-    """Value for container t in which the hole stands for the delimited structure with the given fields."""
-    d = ["delim", ["struct", 9000, dfields], 0]
-    return S.gen_value(rng, subst(t, d), p_omit)
-
-
 def gen_case(rng, tier):
     ctx = S.Ctx(rng, max_cap=4 if tier == "quick" else 8, max_fields=4)
     depth = rng.choice([0, 1, 1, 2])
     cont = gen_container(ctx, depth, True)
-    while cont[0] == "delim" and False:
-        cont = cont[1]
     nf = rng.choice([0, 1, 1, 2, 2, 3, 4])
     na = rng.choice([0, 1, 1, 1, 2, 3])
     fields = []
